@@ -118,7 +118,7 @@ def apply_degen(rng, X, y, kind, degen):
         y[...] = choice(rng, [1.0, -3.5])
     elif degen == "const_y" and kind in ("count", "pos"):
         # a constant target of any magnitude: the optimum is the intercept log(c) alone
-        y[...] = choice(rng, [1.0, 3.0, 1000.0] if kind == "count" else [1.0, 1e-3, 50.0])
+        y[...] = choice(rng, [1.0, 3.0, 1000.0] if kind == "count" else [1.0, 50.0, 1e-3], p=[.2, .2, .6])
         info["const"] = float(np.ravel(y)[0])
     elif degen == "scale_1e6":
         j = int(rng.integers(p))
